@@ -32,6 +32,16 @@ CHECKS = {
                         "chunked output identically belongs to C07/C08, not C06", "tolerance 1e-9 of the output scale",
                         "frames are non-empty multiples of the documented granule"],
     },
+    "C14": {
+        "batches": [("C14", "asan", 4, 2500, 150000)],
+        "rule": ("one evaluation = one simulated run of 1-3 streams: Tuner (fs 8..1e5, integer / half-integer / rational / arbitrary fractional f with "
+                 "|f| <= fs/2, stream of 2..7 x fs samples so that the internal counter wraps several times) or HilbertFilter (requested length 31..401 "
+                 "odd and even), each cut into frames by the transport. Non-trivial: Tuner stream with >= 1 counter wrap and >= 2 frames, or Hilbert "
+                 "stream with >= 2 frames; distinct by (processor, log2 fs or length class, fractional/negative f, wrap inside frame / on boundary, "
+                 "number of wraps, framing style)."),
+        "assumptions": ["reference phase: exact integer reduction of trunc(f)*k mod fs plus the fractional part in long double", "tolerance 1e-7*|x[k]| for the Tuner; exact equality for the delayed real part",
+                        "hilbert() and the 1e-3 quadrature accuracy of the designed filter are pure numerics and are NOT decided by this check"],
+    },
 }
 
 
